@@ -550,3 +550,36 @@ def agg_numba(inp, W):
     finally:
         if not shared:
             shutil.rmtree(cache, ignore_errors=True)
+
+# ---------------------------------------------------------------------------- C10 Vector construction / NA model
+
+@op
+def vec_build(inp, W):
+    di = W.di
+    seq = inp["seq"]
+    dt = inp.get("dtype")
+    if dt == "str": dt = str
+    elif dt == "float": dt = float
+    elif dt == "int": dt = int
+    elif dt == "object": dt = object
+    elif dt == "bool": dt = bool
+    v = di.Vector(seq, dt) if dt is not None else di.Vector(seq)
+    res = {"v": v, "is_na": v.is_na(), "tolist": v.tolist()}
+    back = di.Vector(v.tolist(), v.dtype)
+    res["rebuilt"] = back
+    res["rebuilt_equal"] = bool(back.equal(v))
+    res["self_equal"] = bool(v.equal(v))
+    up = v.astype(v.na_dtype)
+    res["na_dtype_holds_na"] = None
+    if len(up):
+        up[0] = v.na_value
+        res["na_dtype_holds_na"] = bool(up.is_na()[0])
+    res["drop_na"] = v.drop_na()
+    if "fill" in inp:
+        res["replace_na"] = v.replace_na(inp["fill"])
+    return res
+
+@op
+def vec_equal(inp, W):
+    a, b, c = inp["a"], inp["b"], inp["c"]
+    return {"ab": bool(a.equal(b)), "ba": bool(b.equal(a)), "bc": bool(b.equal(c)), "ac": bool(a.equal(c)), "aa": bool(a.equal(a))}
